@@ -23,6 +23,52 @@ from typing import Optional
 from .prog import AnalysisError, ClassInfo, FuncInfo, Program, dotted, unparse
 
 
+
+# struct format support (network order only): char -> (bits, signed)
+_STRUCT_CH = {"b": (8, True), "B": (8, False), "h": (16, True), "H": (16, False), "i": (32, True), "I": (32, False),
+              "l": (32, True), "L": (32, False), "q": (64, True), "Q": (64, False), "x": (8, None)}
+
+
+def parse_struct_format(fmt: str):
+    """-> [(bits, signed|None for pad)] ; raises AnalysisError for anything but big-endian fixed-size integer formats."""
+    import re as _re
+    if not fmt or fmt[0] not in "!>":
+        raise AnalysisError(f"struct format {fmt!r}: only network byte order ('!' or '>') is understood")
+    out = []
+    for cnt, ch in _re.findall(r"(\d*)([a-zA-Z])", fmt[1:]):
+        if ch not in _STRUCT_CH:
+            raise AnalysisError(f"struct format {fmt!r}: unsupported code {ch!r}")
+        for _ in range(int(cnt) if cnt else 1):
+            out.append(_STRUCT_CH[ch])
+    return out
+
+
+def _struct_fmt(prog, fi, call, env):
+    """(format string, data arg index) for struct.unpack/unpack_from/pack or <Struct const>.unpack(...)"""
+    f = call.func
+    d = dotted(f) or ""
+    if d in ("struct.unpack", "struct.unpack_from", "struct.pack") and call.args:
+        fmt = prog.try_fold(fi.module, call.args[0])
+        return (fmt, 1) if isinstance(fmt, str) else (None, None)
+    if isinstance(f, ast.Attribute) and f.attr in ("unpack", "unpack_from", "pack"):
+        base = f.value
+        src = None
+        if isinstance(base, ast.Call) and (dotted(base.func) or "").endswith("Struct") and base.args:
+            src = base.args[0]
+        else:
+            r = prog.resolve_expr_entity(fi.module, base)
+            if isinstance(r, tuple) and r[0] in ("const", "classattr"):
+                node = r[2] if r[0] == "const" else r[1].fields[r[2]][1]
+                if isinstance(node, ast.Call) and (dotted(node.func) or "").endswith("Struct") and node.args:
+                    src = node.args[0]
+            if src is None and isinstance(base, ast.Name) and isinstance(env, dict) and isinstance(env.get(base.id), tuple) \
+                    and env[base.id][:1] == ("structfmt",):
+                return env[base.id][1], 0
+        if src is not None:
+            fmt = prog.try_fold(fi.module, src)
+            return (fmt, 0) if isinstance(fmt, str) else (None, None)
+    return None, None
+
 # --------------------------------------------------------------------------------------------
 # writer
 # --------------------------------------------------------------------------------------------
@@ -125,6 +171,28 @@ class WriterEval:
             if fd == "int.from_bytes" and e.args:
                 lay = self.ev(e.args[0], fi, prefix, env)
                 return Layout("int", lay.total, lay.segs)
+            fmt, di = _struct_fmt(P, fi, e, env)
+            if fmt is not None and isinstance(fn, ast.Attribute) and fn.attr == "pack":
+                parts = parse_struct_format(fmt)
+                vals = list(e.args[di:])
+                fields_ = [p_ for p_ in parts if p_[1] is not None]
+                if len(vals) != len(fields_):
+                    raise AnalysisError(f"{fi.qual}:{line}: struct.pack with {len(vals)} values for format {fmt!r}")
+                total = sum(b for b, _ in parts)
+                segs, pos, vi = [], 0, 0
+                for bits, signed in parts:
+                    if signed is not None:
+                        lay = self.ev(vals[vi], fi, prefix, env)
+                        vi += 1
+                        for sg in lay.segs:
+                            sg.lsb += total - pos - bits
+                            if sg.width is None:
+                                sg.width = bits
+                                sg.signed_tb = bool(signed)
+                                sg.reduced = bool(signed)
+                        segs += lay.segs
+                    pos += bits
+                return Layout("bytes", total, segs)
             if isinstance(fn, ast.Attribute) and fn.attr == "to_bytes":
                 lay = self.ev(fn.value, fi, prefix, env)
                 n = None
@@ -347,6 +415,14 @@ class ReaderEval:
                     continue
                 if isinstance(tgt, ast.Name):
                     env[tgt.id] = self.ev(st.value, fi, env)
+                elif isinstance(tgt, (ast.Tuple, ast.List)):
+                    v = self.ev(st.value, fi, env)
+                    if isinstance(v, tuple) and len(v) == len(tgt.elts):
+                        for t, x in zip(tgt.elts, v):
+                            if isinstance(t, ast.Name):
+                                env[t.id] = x
+                    elif isinstance(v, tuple):
+                        raise AnalysisError(f"decoder {fi.qual}:{st.lineno}: unpacking {len(v)} values into {len(tgt.elts)} names")
                 continue
             if isinstance(st, ast.Return):
                 if st.value is None:
@@ -428,6 +504,11 @@ class ReaderEval:
             return c
         if isinstance(e, ast.Subscript):
             v = self.ev(e.value, fi, env)
+            if isinstance(v, tuple) and not (v[:1] == ("structfmt",)):
+                i = P.try_fold(m, e.slice)
+                if isinstance(i, int) and -len(v) <= i < len(v):
+                    return v[i]
+                return None
             if isinstance(v, Bits) and v.kind == "bytes":
                 sl = e.slice
                 if isinstance(sl, ast.Slice):
@@ -465,6 +546,29 @@ class ReaderEval:
                 return None
             if fd in ("int", "bool") and len(e.args) == 1:
                 return self.ev(e.args[0], fi, env)
+            fmt, di = _struct_fmt(P, fi, e, env)
+            if fmt is not None and isinstance(e.func, ast.Attribute) and e.func.attr.startswith("unpack") and len(e.args) > di:
+                v = self.ev(e.args[di], fi, env)
+                if isinstance(v, Bits) and v.kind == "bytes":
+                    parts = parse_struct_format(fmt)
+                    off = 0
+                    if e.func.attr == "unpack_from" and len(e.args) > di + 1:
+                        o = P.try_fold(m, e.args[di + 1])
+                        if not isinstance(o, int):
+                            raise AnalysisError(f"{fi.qual}:{line}: unpack_from with non-constant offset")
+                        off = 8 * o
+                    total = sum(b for b, _ in parts)
+                    out = []
+                    pos = off
+                    for bits, signed in parts:
+                        if signed is not None:
+                            if v.width is not None and v.lsb is not None:
+                                out.append(Bits(v.lsb + v.width - pos - bits, bits, "int", signed=bool(signed), line=line))
+                            else:
+                                out.append(Bits(None, bits, "int", signed=bool(signed), msb=(v.msb or 0) + pos, line=line))
+                        pos += bits
+                    return tuple(out)
+                return None
             if isinstance(e.func, ast.Attribute) and e.func.attr == "to_bytes":
                 v = self.ev(e.func.value, fi, env)
                 n = P.try_fold(m, e.args[0]) if e.args else None
